@@ -22,57 +22,62 @@ CONSTANTS HookMsgs,       \* subset of {"update","cancel","new"}: messages the h
           ApiCalls,       \* subset of {"close","pause","state"}
           RemoteCancel,   \* BOOLEAN: a cancel request may arrive over the network
           SubCalls,       \* subset of {"state","close"}: what the subscriber does inside the callback
-          CleanupHoldsMap \* BOOLEAN: refuted variant - CleanupChannel keeps the map lock while it takes the channel lock
+          CleanupHoldsMap,\* BOOLEAN: refuted variant - CleanupChannel keeps the map lock while it takes the channel lock
+          OpenPath        \* "off" | "async" | "sync": Transport.OpenChannel holds chLk across gs.Request and waits there for the outgoing-request hook
+                          \* (which graphsync runs on its request loop) to report the request opened.  When the events handler REFUSES the request
+                          \* the hook must release the channel: "async" = the code (tell the opener, release from another goroutine),
+                          \* "sync" = the refuted variant (F17: CleanupChannel called from the hook itself -> chLk, held by the opener)
 
-VARIABLES chLk, mapLk, q, busy, hpc, hook, api, net, notif, sub, status
-vars == <<chLk, mapLk, q, busy, hpc, hook, api, net, notif, sub, status>>
+VARIABLES chLk, mapLk, q, busy, hpc, hook, api, net, notif, sub, status, opn
+vars == <<chLk, mapLk, q, busy, hpc, hook, api, net, notif, sub, status, opn>>
 
 Init == /\ chLk = "free" /\ mapLk = "free" /\ q = << >> /\ busy = FALSE /\ hpc = "idle"
         /\ hook = [pc |-> "idle", msg |-> "none"] /\ api = [pc |-> "idle", call |-> "none"]
         /\ net = "idle" /\ notif = 0 /\ sub = [pc |-> "idle", call |-> "none"] /\ status = "live"
+        /\ opn = [pc |-> "idle", ohook |-> "idle", clean |-> "idle"]
 
 Quiet == q = << >> /\ ~busy
 
 (* ---- graphsync incoming request hook: lock ch.lk, call the manager, unlock ---- *)
 HookStart(m) == /\ hook.pc = "idle" /\ m \in HookMsgs /\ chLk = "free"
                 /\ chLk' = "hook" /\ hook' = [pc |-> "inMgr", msg |-> m]
-                /\ UNCHANGED <<mapLk, q, busy, hpc, api, net, notif, sub, status>>
+                /\ UNCHANGED <<mapLk, q, busy, hpc, api, net, notif, sub, status, opn>>
 (* update: Send(Pause/Resume) then GetByID (flush) ; new: events then GetByID ; cancel: transport.CleanupChannel (needs ch.lk!) then Cancel *)
 HookSend == /\ hook.pc = "inMgr" /\ hook.msg \in {"update","new"}
             /\ (hook.msg = "new" => mapLk = "free")          \* ApplyOptions -> UseStore -> trackDTChannel: dtChannelsLk, under chLk
             /\ q' = Append(q, "evt") /\ hook' = [hook EXCEPT !.pc = "flush"]
-            /\ UNCHANGED <<mapLk, chLk, busy, hpc, api, net, notif, sub, status>>
+            /\ UNCHANGED <<mapLk, chLk, busy, hpc, api, net, notif, sub, status, opn>>
 HookFlush == /\ hook.pc = "flush" /\ Quiet
              /\ hook' = [hook EXCEPT !.pc = "unlock"]
-             /\ UNCHANGED <<mapLk, chLk, q, busy, hpc, api, net, notif, sub, status>>
+             /\ UNCHANGED <<mapLk, chLk, q, busy, hpc, api, net, notif, sub, status, opn>>
 HookCancelCleanup == /\ hook.pc = "inMgr" /\ hook.msg = "cancel" /\ chLk = "free"     \* never enabled: the hook itself holds chLk
                      /\ hook' = [hook EXCEPT !.pc = "unlock"]
-                     /\ UNCHANGED <<mapLk, chLk, q, busy, hpc, api, net, notif, sub, status>>
+                     /\ UNCHANGED <<mapLk, chLk, q, busy, hpc, api, net, notif, sub, status, opn>>
 HookUnlock == /\ hook.pc = "unlock" /\ chLk' = "free" /\ hook' = [pc |-> "done", msg |-> hook.msg]
-              /\ UNCHANGED <<mapLk, q, busy, hpc, api, net, notif, sub, status>>
+              /\ UNCHANGED <<mapLk, q, busy, hpc, api, net, notif, sub, status, opn>>
 
 (* ---- API caller ---- *)
 ApiStart(c) == /\ api.pc = "idle" /\ c \in ApiCalls /\ api' = [pc |-> "flush", call |-> c]
-               /\ UNCHANGED <<mapLk, chLk, q, busy, hpc, hook, net, notif, sub, status>>
+               /\ UNCHANGED <<mapLk, chLk, q, busy, hpc, hook, net, notif, sub, status, opn>>
 ApiFlush == /\ api.pc = "flush" /\ Quiet            \* GetByID at the start of Close / ChannelState
             /\ api' = [api EXCEPT !.pc = IF api.call = "state" THEN "done" ELSE "lock"]
-            /\ UNCHANGED <<mapLk, chLk, q, busy, hpc, hook, net, notif, sub, status>>
+            /\ UNCHANGED <<mapLk, chLk, q, busy, hpc, hook, net, notif, sub, status, opn>>
 ApiLock == /\ api.pc = "lock" /\ chLk = "free" /\ chLk' = "api" /\ api' = [api EXCEPT !.pc = "unlock"]
-           /\ UNCHANGED <<mapLk, q, busy, hpc, hook, net, notif, sub, status>>
+           /\ UNCHANGED <<mapLk, q, busy, hpc, hook, net, notif, sub, status, opn>>
 ApiUnlock == /\ api.pc = "unlock" /\ chLk' = "free"
              /\ q' = IF api.call = "close" THEN Append(q, "cancel") ELSE Append(q, "evt")
              /\ api' = [api EXCEPT !.pc = "done"]
-             /\ UNCHANGED <<mapLk, busy, hpc, hook, net, notif, sub, status>>
+             /\ UNCHANGED <<mapLk, busy, hpc, hook, net, notif, sub, status, opn>>
 
 (* ---- network receiver: cancel request -> transport.CleanupChannel (ch.lk) -> Cancel event ---- *)
 NetCancelMap == /\ RemoteCancel /\ net = "idle" /\ mapLk = "free" /\ net' = "map"       \* CleanupChannel: delete the map entry under dtChannelsLk
                 /\ mapLk' = IF CleanupHoldsMap THEN "net" ELSE "free"
-                /\ UNCHANGED <<chLk, q, busy, hpc, hook, api, notif, sub, status>>
+                /\ UNCHANGED <<chLk, q, busy, hpc, hook, api, notif, sub, status, opn>>
 NetCancelLock == /\ net = "map" /\ chLk = "free" /\ chLk' = "net" /\ net' = "held"
-                 /\ UNCHANGED <<mapLk, q, busy, hpc, hook, api, notif, sub, status>>
+                 /\ UNCHANGED <<mapLk, q, busy, hpc, hook, api, notif, sub, status, opn>>
 NetCancelSend == /\ net = "held" /\ chLk' = "free" /\ q' = Append(q, "cancel") /\ net' = "done"
                  /\ mapLk' = IF mapLk = "net" THEN "free" ELSE mapLk
-                 /\ UNCHANGED <<busy, hpc, hook, api, notif, sub, status>>
+                 /\ UNCHANGED <<busy, hpc, hook, api, notif, sub, status, opn>>
 
 (* ---- the channel's state machine ---- *)
 Plan == /\ ~busy /\ q # << >>
@@ -82,28 +87,50 @@ Plan == /\ ~busy /\ q # << >>
                 ELSE /\ notif' = notif + 1
                      /\ IF e = "cancel" THEN busy' = TRUE /\ hpc' = "cleanup" /\ status' = "cleaning"
                         ELSE IF e = "cc" THEN status' = "done" /\ UNCHANGED <<mapLk, busy, hpc>>
-                        ELSE UNCHANGED <<mapLk, busy, hpc, status>>
-        /\ UNCHANGED <<mapLk, chLk, hook, api, net, sub>>
+                        ELSE UNCHANGED <<mapLk, busy, hpc, status, opn>>
+        /\ UNCHANGED <<mapLk, chLk, hook, api, net, sub, opn>>
 HandlerMap == /\ hpc = "cleanup" /\ mapLk = "free" /\ hpc' = "map"                          \* env.CleanupChannel -> transport.CleanupChannel: map entry
               /\ mapLk' = IF CleanupHoldsMap THEN "fsm" ELSE "free"
-              /\ UNCHANGED <<chLk, q, busy, hook, api, net, notif, sub, status>>
+              /\ UNCHANGED <<chLk, q, busy, hook, api, net, notif, sub, status, opn>>
 HandlerCleanup == /\ hpc = "map" /\ chLk = "free" /\ chLk' = "fsm" /\ hpc' = "held"         \* ... then dtChannel.cleanup -> ch.lk
-                  /\ UNCHANGED <<mapLk, q, busy, hook, api, net, notif, sub, status>>
+                  /\ UNCHANGED <<mapLk, q, busy, hook, api, net, notif, sub, status, opn>>
 HandlerDone == /\ hpc = "held" /\ chLk' = "free" /\ hpc' = "idle" /\ busy' = FALSE /\ q' = Append(q, "cc")
                /\ mapLk' = IF mapLk = "fsm" THEN "free" ELSE mapLk
-               /\ UNCHANGED <<hook, api, net, notif, sub, status>>
+               /\ UNCHANGED <<hook, api, net, notif, sub, status, opn>>
+
+(* ---- Transport.OpenChannel and the outgoing-request hook ---- *)
+(* opener: lock chLk, gs.Request (the hook runs while the opener waits), then "opened" -> unlock, or "refused" -> unlock with an error *)
+OpenStart == /\ OpenPath # "off" /\ opn.pc = "idle" /\ chLk = "free" /\ chLk' = "open"
+             /\ opn' = [opn EXCEPT !.pc = "inRequest", !.ohook = "handler"]
+             /\ UNCHANGED <<mapLk, q, busy, hpc, hook, api, net, notif, sub, status>>
+OutHookAccept == /\ opn.ohook = "handler" /\ opn' = [opn EXCEPT !.ohook = "done", !.pc = "opened"]          \* OnChannelOpened ok: gsReqOpened signals the opener
+                 /\ UNCHANGED <<chLk, mapLk, q, busy, hpc, hook, api, net, notif, sub, status>>
+OutHookRefuse == /\ opn.ohook = "handler"                                                                   \* OnChannelOpened returns an error
+                 /\ opn' = IF OpenPath = "sync" THEN [opn EXCEPT !.ohook = "cleanupMap"]                     \* refuted: t.CleanupChannel(chid) from the hook
+                            ELSE [opn EXCEPT !.ohook = "done", !.pc = "refused", !.clean = "map"]             \* code: tell the opener, go t.CleanupChannel(chid)
+                 /\ UNCHANGED <<chLk, mapLk, q, busy, hpc, hook, api, net, notif, sub, status>>
+OutHookCleanupMap == /\ opn.ohook = "cleanupMap" /\ mapLk = "free" /\ opn' = [opn EXCEPT !.ohook = "cleanupLock"]
+                     /\ UNCHANGED <<chLk, mapLk, q, busy, hpc, hook, api, net, notif, sub, status>>
+OutHookCleanupLock == /\ opn.ohook = "cleanupLock" /\ chLk = "free" /\ opn' = [opn EXCEPT !.ohook = "done"]   \* never enabled: the opener holds chLk and waits for this hook
+                      /\ UNCHANGED <<chLk, mapLk, q, busy, hpc, hook, api, net, notif, sub, status>>
+OpenReturn == /\ opn.pc \in {"opened", "refused"} /\ chLk' = "free" /\ opn' = [opn EXCEPT !.pc = "done"]
+              /\ UNCHANGED <<mapLk, q, busy, hpc, hook, api, net, notif, sub, status>>
+AsyncCleanupMap == /\ opn.clean = "map" /\ mapLk = "free" /\ opn' = [opn EXCEPT !.clean = "lock"]
+                   /\ UNCHANGED <<chLk, mapLk, q, busy, hpc, hook, api, net, notif, sub, status>>
+AsyncCleanupLock == /\ opn.clean = "lock" /\ chLk = "free" /\ opn' = [opn EXCEPT !.clean = "done"]            \* lock + unlock in one step
+                    /\ UNCHANGED <<chLk, mapLk, q, busy, hpc, hook, api, net, notif, sub, status>>
 
 (* ---- notifier + a subscriber that calls back into the API from inside the callback ---- *)
 SubStart(c) == /\ notif > 0 /\ sub.pc = "idle" /\ c \in SubCalls /\ notif' = notif - 1 /\ sub' = [pc |-> "flush", call |-> c]
-               /\ UNCHANGED <<mapLk, chLk, q, busy, hpc, hook, api, net, status>>
-SubSkip == /\ notif > 0 /\ sub.pc = "idle" /\ notif' = notif - 1 /\ UNCHANGED <<mapLk, chLk, q, busy, hpc, hook, api, net, sub, status>>
+               /\ UNCHANGED <<mapLk, chLk, q, busy, hpc, hook, api, net, status, opn>>
+SubSkip == /\ notif > 0 /\ sub.pc = "idle" /\ notif' = notif - 1 /\ UNCHANGED <<mapLk, chLk, q, busy, hpc, hook, api, net, sub, status, opn>>
 SubFlush == /\ sub.pc = "flush" /\ Quiet
             /\ sub' = [sub EXCEPT !.pc = IF sub.call = "state" THEN "idle" ELSE "lock"]
-            /\ UNCHANGED <<mapLk, chLk, q, busy, hpc, hook, api, net, notif, status>>
+            /\ UNCHANGED <<mapLk, chLk, q, busy, hpc, hook, api, net, notif, status, opn>>
 SubLock == /\ sub.pc = "lock" /\ chLk = "free" /\ chLk' = "sub" /\ sub' = [sub EXCEPT !.pc = "unlock"]
-           /\ UNCHANGED <<mapLk, q, busy, hpc, hook, api, net, notif, status>>
+           /\ UNCHANGED <<mapLk, q, busy, hpc, hook, api, net, notif, status, opn>>
 SubUnlock == /\ sub.pc = "unlock" /\ chLk' = "free" /\ q' = Append(q, "cancel") /\ sub' = [pc |-> "idle", call |-> "none"]
-             /\ UNCHANGED <<mapLk, busy, hpc, hook, api, net, notif, status>>
+             /\ UNCHANGED <<mapLk, busy, hpc, hook, api, net, notif, status, opn>>
 
 Next == \/ \E m \in HookMsgs : HookStart(m)
         \/ HookSend \/ HookFlush \/ HookCancelCleanup \/ HookUnlock
@@ -113,16 +140,19 @@ Next == \/ \E m \in HookMsgs : HookStart(m)
         \/ Plan \/ HandlerMap \/ HandlerCleanup \/ HandlerDone
         \/ \E c \in SubCalls : SubStart(c)
         \/ SubSkip \/ SubFlush \/ SubLock \/ SubUnlock
+        \/ OpenStart \/ OutHookAccept \/ OutHookRefuse \/ OutHookCleanupMap \/ OutHookCleanupLock \/ OpenReturn \/ AsyncCleanupMap \/ AsyncCleanupLock
 Spec == Init /\ [][Next]_vars /\ WF_vars(Next)
 
 (* lock-order cycle between the channel lock and the map lock: the hook (holding chLk) needs mapLk while a cleanup  *)
 (* (holding mapLk) needs chLk.  Unreachable with the code's order (CleanupChannel drops mapLk first).              *)
 NoMapCycle == ~(hook.pc = "inMgr" /\ hook.msg = "new" /\ chLk = "hook" /\ mapLk # "free")
 Started == hook.pc \notin {"idle","done"} \/ api.pc \notin {"idle","done"} \/ net \in {"map", "held"} \/ sub.pc # "idle" \/ busy
+           \/ opn.pc \notin {"idle","done"} \/ opn.ohook \notin {"idle","done"} \/ opn.clean \notin {"idle","done"}
 (* a state in which some call has started and nothing can move = a deadlock of the library *)
 NoStuckCall == Started => ENABLED Next
 EveryCallReturns == /\ (hook.pc = "inMgr") ~> (hook.pc = "done")
                     /\ (api.pc = "flush") ~> (api.pc = "done")
                     /\ busy ~> ~busy
+                    /\ (opn.pc = "inRequest") ~> (opn.pc = "done")
 Bound == Len(q) <= 4 /\ notif <= 3
 =============================================================================
